@@ -8,7 +8,10 @@
      WAnswered r      stream.Send returns nil -- the request is on the wire -- and the response arrives;
      WStreamFailed c  stream.Send returns nil and then the stream breaks (Recv fails with status c, the stream context
                       is done): handleStreamClosed fails the pending future with io.EOF, whatever c is.
-   isRetriable(err) looks at the gRPC code of the error; io.EOF is not a status (code Unknown). *)
+   isRetriable(err) looks at the gRPC code of the error; io.EOF is not a status (code Unknown).
+   The retry loop of the write batch is the only place of the path that retries: executorImpl.ExecuteWrite hands the request to
+   ONE stream (cached unless marked failed) and returns what Send returns -- it never sends a second time itself; an attempt
+   below is therefore one call of ExecuteWrite, and [count_sent] counts the stream.Send calls of the whole path. *)
 From Coq Require Import List NArith Bool.
 Import ListNotations.
 Local Open Scope N_scope.
